@@ -58,7 +58,15 @@ def check(run: Run) -> None:
             return _over_parameters(t[3][0][0])
         if t[0] == "app" and t[1][0] == "attr" and t[1][2] == "values" and not t[2]:
             return _over_parameters(t[1][1])
+        if _skip_form(t) is not None:
+            return _over_parameters(_skip_form(t)[0])
         return t[0] == "attr" and t[2] == "parameters"
+
+    def _skip_form(t):
+        """islice(<parameters>, <n>, None): the first n are passed over, every later one is visited"""
+        if t[0] == "app" and t[1] == ("global", "itertools.islice") and len(t[2]) in (3, 4) and not t[3] and t[2][2] == ("const", None) and (len(t[2]) == 3 or t[2][3] in (("const", 1), ("const", None))):
+            return t[2][0], t[2][1]
+        return None
 
     for g_, lp_, it in unit_loops(ctx, m, fd0):  # iterables seen from _fill_in_default_arguments (helper parameters bound)
         if _over_parameters(it):
@@ -93,10 +101,45 @@ def check(run: Run) -> None:
             elif isinstance(r, ast.Call) and isinstance(r.func, ast.Name) and r.func.id == "len" and isinstance(l, ast.Name) and op in (ast.GtE, ast.Gt, ast.Lt, ast.LtE):
                 slot_tests.append((n, l.id, r.args[0]))
                 strict[id(n)] = (op in (ast.GtE, ast.Lt), op in (ast.GtE, ast.Gt))
-    if not slot_tests:
+    if not slot_tests and _skip_form(loop_it0) is not None:
+        # skip-count form: the parameters the call fills by position are passed over up front (islice from
+        # len(<positional arguments>)), and every later parameter adds exactly one argument or raises, so the
+        # next parameter is always the next open slot
+        inner_, start_ = _skip_form(loop_it0)
+        ok_start = start_[0] == "app" and start_[1] == ("global", "builtins.len") and len(start_[2]) == 1 and contains(start_[2][0], lambda s_: s_ == ("attr", callp0, "args"))
+        run.check(ok_start, "C07.R1", fd, lp, "as many parameters are passed over as the call has positional arguments", f"the loop passes over {show(start_)[:60]} parameters: positional slots and declared parameters are out of step")
+        filt = contains(inner_, lambda s_: s_[0] == "op" and s_[1] in ("Compare:NotEq",) and ("const", "self") in s_[2] and any(x[0] == "attr" and x[2] == "name" for x in s_[2] if isinstance(x, tuple)))
+        run.check(filt, "C07.R1", fd, lp, "the parameters counted exclude self", "the skip count runs over all parameters including self: off by one for methods")
+        lens_ = [] if ok_start else None
+        lens_ = lens_ if lens_ is None else [c_ for c_ in ast.walk(fd.node) if isinstance(c_, ast.Call) and isinstance(c_.func, ast.Name) and c_.func.id == "len" and len(c_.args) == 1 and isinstance(c_.args[0], ast.Name) and fa.cfg.has_node(c_) and strip_sites(fa.term_of(c_)) == start_]
+        if lens_ is None:
+            lens_ = [c_ for c_ in ast.walk(fd.node) if isinstance(c_, ast.Call) and isinstance(c_.func, ast.Name) and c_.func.id == "len" and len(c_.args) == 1 and isinstance(c_.args[0], ast.Name) and any(c_ is x for x in ast.walk(lp.iter))] or [c_ for c_ in ast.walk(fd.node) if isinstance(c_, ast.Call) and isinstance(c_.func, ast.Name) and c_.func.id == "len" and len(c_.args) == 1 and isinstance(c_.args[0], ast.Name)][:1]
+        if len({c_.args[0].id for c_ in lens_}) != 1:
+            raise AnalysisError("the skip count of the filling loop is not len(<one local list>) in a form this rule can read")
+        arr_name = lens_[0].args[0].id
+        stores_a = [x for x in own_nodes(fd) if isinstance(x, ast.Name) and x.id == arr_name and isinstance(x.ctx, ast.Store)]
+        if len(stores_a) != 1 and ok_start:
+            raise AnalysisError(f"the positional list {arr_name} is bound more than once: skip-count form not readable")
+        app_nodes = [cfg.node_of(stmt_of(c_)) for c_ in ast.walk(lp) if isinstance(c_, ast.Call) and isinstance(c_.func, ast.Attribute) and c_.func.attr == "append" and isinstance(c_.func.value, ast.Name) and c_.func.value.id == arr_name]
+        other_w = [c_ for c_ in ast.walk(lp) if isinstance(c_, ast.Call) and isinstance(c_.func, ast.Attribute) and isinstance(c_.func.value, ast.Name) and c_.func.value.id == arr_name and c_.func.attr in ("extend", "insert", "pop", "remove", "clear")]
+        paths = cfg.body_paths(head, lambda c: c.stmt is not None and any(x is c.stmt for x in ast.walk(lp)) and c.stmt is not lp)
+        bad = []
+        for pth, _facts in paths:
+            if any(isinstance(getattr(x, "stmt", None), ast.Raise) for x in pth):
+                continue
+            cnt = sum(1 for x in pth if any(x is a_ for a_ in app_nodes))
+            if cnt != 1:
+                bad.append(cnt)
+        run.notes["fill_loop_paths"] = len(paths)
+        run.check(not bad and not other_w and len(paths) >= 2, "C07.R1", fd, lp, "every parameter visited adds exactly one positional argument (or raises)", f"{len(bad)} loop-body path(s) add {sorted(set(bad))} arguments for one parameter: the next parameter visited is no longer the next open slot")
+        # nothing in the loop may skip a parameter that is visited
+        run.check(not any(isinstance(x, (ast.Continue, ast.Break)) for x in ast.walk(lp)), "C07.R1", fd, lp, "no visited parameter is skipped", "the filling loop skips or stops at some parameter although its slot is open")
+        slot_tests = None
+    if slot_tests is not None and not slot_tests:
         raise AnalysisError("the filling loop of _fill_in_default_arguments has no test of the form len(<positional arguments>) <= <slot index> that this rule can read (the arguments may be kept in an object that is handed to other functions)")
-    run.check(len(slot_tests) == 1, "C07.R1", fd, lp, "one 'is slot i already filled' test in the loop", f"{len(slot_tests)} slot tests found")
-    if len(slot_tests) == 1:
+    if slot_tests is not None:
+        run.check(len(slot_tests) == 1, "C07.R1", fd, lp, "one 'is slot i already filled' test in the loop", f"{len(slot_tests)} slot tests found")
+    if slot_tests is not None and len(slot_tests) == 1:
         test, idx_name, arr = slot_tests[0]
         strict_ok, missing_pol = strict[id(test)]
         run.check(strict_ok, "C07.R1", fd, stmt_of(test), "slot i is missing iff len(args) <= i", f"slot test is '{ast.unparse(test)}': off by one")
@@ -229,6 +272,8 @@ def check(run: Run) -> None:
             it = strip_sites(faL.term_of(lp.iter, faL.cfg.node_of(lp)))
             if it[0] == "app" and it[1] == ("global", "builtins.enumerate") and len(it[2]) == 1:
                 it = it[2][0]
+            if _skip_form(it) is not None:
+                it = _skip_form(it)[0]  # passing over the first n of no parameters leaves none
             while it[0] == "comp" and len(it[3]) == 1 and it[2] == ("elem", it[3][0][0]):
                 it = it[3][0][0]  # a filter over the parameters (p for p in parameters if p.name != "self") is empty when they are
             if fpar is None and fpar0 is not None:
@@ -421,7 +466,9 @@ def _check_find_keyword(run: Run, m, mod: str) -> None:
 
 def check_env_merge(run: Run, m, rule: str) -> None:
     """remap_from_lambda: {inherited known_types} then {parameter: item type}; parameter wins; new dict."""
-    rl = m.find_func("remap_from_lambda", in_module="func_adl.type_based_replacement")
+    from ..lib import view as _view
+
+    rl = _view(m, m.find_func("remap_from_lambda", in_module="func_adl.type_based_replacement"), keep=("remap_by_types",))
     ctx = TermCtx(m, max_depth=1, opaque={"remap_by_types"})
     fa = ctx.analysis(rl)
     kt = ("param", rl.pos_params[2])
